@@ -22,8 +22,176 @@ def frame_rows(df):
     return rows
 
 
+# ---------------------------------------------------------------------------------------------------------------
+# pipeline cases: the real ranking task (heuristic MI-numba-3mr) on a generated csv; observed are the triplets it wrote,
+# the dictionaries it handed to rank_features_3MR (harness-side wrapper around the name task_ranking uses) and 3mr_ranks.tsv
+
+_PIPE = {}
+
+
+class _Res:
+    def __init__(self, v):
+        self.v = v
+
+    def ready(self):
+        return True
+
+    def get(self, timeout=None):
+        return self.v
+
+
+class SerialPool:
+    def __init__(self, n=1):
+        pass
+
+    def __enter__(self):
+        return self
+
+    def __exit__(self, *a):
+        return False
+
+    def close(self):
+        pass
+
+    def join(self):
+        pass
+
+    def clear(self):
+        pass
+
+    def amap(self, f, xs):
+        return _Res([f(x) for x in xs])
+
+    def map(self, f, xs):
+        return [f(x) for x in xs]
+
+    def imap(self, f, xs):
+        return iter([f(x) for x in xs])
+
+
+def build_args(argv):
+    """The namespace exactly as outrank/__main__.py builds it (its parser lives inside main(): capture it)."""
+    import argparse
+    import outrank.__main__ as M
+
+    class _Stop(Exception):
+        pass
+    got = {}
+    orig = argparse.ArgumentParser.parse_args
+
+    def fake(self, *a, **k):
+        got["ns"] = orig(self, argv)
+        raise _Stop()
+    argparse.ArgumentParser.parse_args = fake
+    try:
+        M.main()
+    except _Stop:
+        pass
+    finally:
+        argparse.ArgumentParser.parse_args = orig
+    return got["ns"]
+
+
+def write_csv(case, path):
+    import random
+    rng = random.Random(case["dataseed"])
+    cols = case["cols"]
+    k = len(cols) - 1
+    with open(path, "w") as f:
+        f.write(",".join(cols) + "\n")
+        for _ in range(case["nrows"]):
+            vals = [rng.randint(0, case["cards"][j] - 1) for j in range(k)]
+            for (j, src) in case.get("copies", []):          # column j follows column src most of the time
+                if rng.random() < 0.8:
+                    vals[j] = vals[src] % case["cards"][j]
+            sig = sum(vals[j] for j in case["signal"])
+            y = (sig % 2) if rng.random() < 0.8 else rng.randint(0, 1)
+            f.write(",".join("v%d" % v for v in vals) + ",%d\n" % y)
+
+
+def read_tsv(path):
+    import csv
+    import os
+    if not os.path.exists(path):
+        return None
+    with open(path, newline="") as f:
+        return list(csv.reader(f, delimiter="\t"))
+
+
+def run_pipeline(case, idx):
+    import logging
+    import os
+    import random
+    import shutil
+    if "tr" not in _PIPE:
+        import outrank.core_ranking as cr
+        import outrank.task_ranking as tr
+        logging.getLogger().setLevel(logging.ERROR)
+        logging.getLogger("syn-logger").setLevel(logging.ERROR)
+        _PIPE["tr"], _PIPE["cr"] = tr, cr
+        _PIPE["real"] = tr.rank_features_3MR
+    tr, cr = _PIPE["tr"], _PIPE["cr"]
+    base = os.path.join(os.environ.get("OUTRANK_VERIF_DIR", "/verif"), ".cache", "c17", str(os.getpid()), "case%d" % idx)
+    shutil.rmtree(base, ignore_errors=True)
+    os.makedirs(os.path.join(base, "in"))
+    write_csv(case, os.path.join(base, "in", "data.csv"))
+    old = os.getcwd()
+    os.chdir(base)
+    for g in ("GLOBAL_CARDINALITY_STORAGE", "GLOBAL_COUNTS_STORAGE", "GLOBAL_RARE_VALUE_STORAGE", "GLOBAL_PRIOR_COMB_COUNTS",
+              "IGNORED_VALUES"):
+        if hasattr(cr, g):
+            getattr(cr, g).clear()
+    random.seed(a=123, version=2)
+    argv = ["--task", "ranking", "--data_path", os.path.join(base, "in"), "--data_source", "csv-raw",
+            "--output_folder", os.path.join(base, "out"), "--minibatch_size", str(case["minibatch"]), "--subsampling", "1",
+            "--heuristic", case["heuristic"], "--target_ranking_only", "False", "--label_column", case["cols"][-1],
+            "--include_cardinality_in_feature_names", "False", "--disable_tqdm", "True", "--num_threads", "1",
+            "--interaction_order", str(case["interaction_order"])]
+    cap = {}
+
+    def wrapper(*a, **k):
+        cap["args"] = a
+        cap["kwargs"] = k
+        return _PIPE["real"](*a, **k)
+    res = {"ok": True}
+    try:
+        args = build_args(argv)
+        tr.Pool = SerialPool
+        tr.rank_features_3MR = wrapper
+        try:
+            tr.outrank_task_conduct_ranking(args)
+        except SystemExit as e:
+            res["exit"] = str(e)
+        finally:
+            tr.rank_features_3MR = _PIPE["real"]
+        trip = read_tsv(os.path.join(base, "out", "pairwise_ranks.tsv"))
+        ranks = read_tsv(os.path.join(base, "out", "3mr_ranks.tsv"))
+        res["triplets"] = None if trip is None else [[r[0], r[1], float(r[2]).hex()] for r in trip[1:]]
+        res["ranks"] = None if ranks is None else [[r[0], r[1]] for r in ranks[1:]]
+        if "args" in cap and len(cap["args"]) >= 3 and not cap["kwargs"]:
+            def fl(x):
+                x = float(x)
+                return x.hex() if x == x and abs(x) != float("inf") else "nan"
+            rel, red, rln = cap["args"][:3]
+            res["dicts"] = {"rel": [[k, fl(v)] for k, v in rel.items()],
+                            "red": [[k[0], k[1], fl(v)] for k, v in red.items()],
+                            "rln": [[k[0], k[1], fl(v)] for k, v in rln.items()],
+                            "extra_args": len(cap["args"]) - 3}
+        else:
+            res["dicts"] = None
+    except Exception as e:
+        import traceback
+        res = {"ok": False, "error": "%s: %s" % (type(e).__name__, e), "trace": traceback.format_exc()[-1500:]}
+    os.chdir(old)
+    shutil.rmtree(base, ignore_errors=True)
+    return res
+
+
 out = []
-for case in payload["cases"]:
+for _i, case in enumerate(payload["cases"]):
+    if case.get("kind") == "pipeline":
+        out.append(run_pipeline(case, _i))
+        continue
     names = case["names"]
     den = float(case["den"])
     rel = {names[i]: k / den for i, k in case["rel"]}
@@ -38,4 +206,10 @@ for case in payload["cases"]:
         out.append({"ok": True, "rows": frame_rows(df)})
     except Exception as e:  # an outcome, decided by the harness
         out.append({"ok": False, "error": "%s: %s" % (type(e).__name__, e)})
+try:
+    import os
+    import shutil
+    shutil.rmtree(os.path.join(os.environ.get("OUTRANK_VERIF_DIR", "/verif"), ".cache", "c17", str(os.getpid())), ignore_errors=True)
+except Exception:
+    pass
 print("@@RESULT " + json.dumps({"results": out}))
